@@ -75,7 +75,9 @@ CHECKS = {
                   "unchanged and no reply; a handshake object completes, PeerCrypto reports Initialized, and a NODE gains a peer entry (for every "
                   "node state, source and wire value) only for the sender of a handshake message that verified under a trusted key; unverifiable "
                   "datagrams (random bytes, any flip/truncation/edit of a genuine message) leave every stage and the whole node state unchanged "
-                  "with no reply, also in sequences. PARTIAL: the liveness direction of 'peers exactly when each trusts the other' is decided by "
+                  "with no reply, also in sequences; over WHOLE RUNS (induction over arbitrary event sequences) every peer of every reachable node state "
+                  "was admitted by a handshake message from that very address that verified under a key of the configured trusted list "
+                  "(AdmissionProofs.v via the reusable object-invariant principle PcInvariant.v). PARTIAL: the liveness direction of 'peers exactly when each trusts the other' is decided by "
                   "the executed correspondence over all trust relations of up to 4 key pairs; signature unforgeability is the modelling decision "
                   "WBadInit/WInit. Known finding F11 (stale-buffer parse) is reported as KNOWN-FINDING.",
              technique="Coq proof (case analysis of the handshake/PeerCrypto/node step functions) + executed correspondence at object and node level", ref="5 (C01)"),
